@@ -493,6 +493,7 @@ def run(prog, R, tier):
     r_allocpath(prog, R)
     r_requeue(prog, R)
     r_counted(prog, R)
+    ownrules.realloc_rule(prog, R, "R-C14-REALLOC")
     r_allocout(prog, R)
     r_registered(prog, R)
     E = effects.Effects(prog)
